@@ -228,7 +228,8 @@ def lookup_errors(trace=None):
     ok = True
     good = std('2.5', 'ADT_A01')
     text = B.message_text('2.5', 'ADT_A01', 'required')
-    for prof, exc in (({'XXX_X01': good}, MessageProfileNotFound), ({'ADT_A01': ('mp', 'sequence', 'ADT_A01', ())}, LegacyMessageProfile)):
+    for prof, exc in (({'XXX_X01': good}, MessageProfileNotFound), ({}, MessageProfileNotFound),
+                      ({'ADT_A01': ('mp', 'sequence', 'ADT_A01', ())}, LegacyMessageProfile)):
         for how in ('ctor', 'parse'):
             try:
                 if how == 'ctor':
